@@ -65,8 +65,7 @@ const seqTemplate = `
   (! (=> (and (= (len$X a) (len$X b))
               (=> (and (<= 0 (diff$X a b)) (< (diff$X a b) (len$X a))) (= (at$X a (diff$X a b)) (at$X b (diff$X a b)))))
          (eq$X a b)) :pattern ((eq$X a b)))))
-(assert (forall ((a Seq$X) (b Seq$X)) (! (=> (eq$X a b) (= a b)) :pattern ((eq$X a b)))))
-(assert (forall ((a Seq$X)) (! (eq$X a a) :pattern ((eq$X a a)))))
+(assert (forall ((a Seq$X) (b Seq$X)) (! (= (eq$X a b) (= a b)) :pattern ((eq$X a b)))))
 (assert (forall ((s Seq$X)) (! (= (sub$X s 0 (len$X s)) s) :pattern ((sub$X s 0 (len$X s))))))
 (assert (forall ((s Seq$X) (lo Int)) (! (= (sub$X s lo lo) empty$X) :pattern ((sub$X s lo lo)))))
 (assert (forall ((s Seq$X)) (! (= (cat$X empty$X s) s) :pattern ((cat$X empty$X s)))))
@@ -290,6 +289,45 @@ func (f *TermFactory) SSub(s, lo, hi *Term) *Term {
 	if lo.ival != nil && lo.ival.Sign() == 0 && hi == f.SLen(s) {
 		return s
 	}
+	if s.op == "cat$"+tag {
+		la := f.SLen(s.args[0])
+		// sub(cat(a, b), 0, len a) = a ; sub(cat(a, b), len a, len a + len b) = b  (syntactic lengths)
+		if lo.isZero() && hi == la {
+			return s.args[0]
+		}
+		if lo == la && hi == f.SLen(s) {
+			return s.args[1]
+		}
+		if lo.isZero() && hi == f.SLen(s) {
+			return s
+		}
+	}
+	if lo.ival != nil && hi.ival != nil && lo.ival.Sign() >= 0 && lo.ival.Cmp(hi.ival) <= 0 && s.op == "cat$"+tag {
+		// literal bounds that fall on segment boundaries of a concatenation with literal-length segments
+		segs := f.catSegments(s)
+		pos := new(big.Int)
+		start, end := -1, -1
+		for i, sg := range segs {
+			if pos.Cmp(lo.ival) == 0 && start < 0 {
+				start = i
+			}
+			l := f.SLen(sg)
+			if l.ival == nil {
+				break
+			}
+			pos = new(big.Int).Add(pos, l.ival)
+			if start >= 0 && pos.Cmp(hi.ival) == 0 {
+				end = i + 1
+				break
+			}
+			if pos.Cmp(hi.ival) > 0 {
+				break
+			}
+		}
+		if start >= 0 && end >= 0 {
+			return f.fromSegs(s.sort, segs[start:end])
+		}
+	}
 	if lo.ival != nil && hi.ival != nil && lo.ival.Sign() >= 0 && lo.ival.Cmp(hi.ival) <= 0 {
 		if xs, ok := f.asList(s); ok && hi.ival.Cmp(bi(int64(len(xs)))) <= 0 {
 			return f.fromList(s.sort, xs[lo.ival.Int64():hi.ival.Int64()])
@@ -341,12 +379,98 @@ func (f *TermFactory) SSplice(s, p, t *Term) *Term {
 	return f.mk("splice$"+seqTag(s.sort), s.sort, "", s, p, t)
 }
 
+// catSegments flattens nested concatenations (without unfolding defined symbols).
+func (f *TermFactory) catSegments(t *Term) []*Term {
+	tag := seqTag(t.sort)
+	switch t.op {
+	case "empty$" + tag:
+		return nil
+	case "cat$" + tag:
+		return append(f.catSegments(t.args[0]), f.catSegments(t.args[1])...)
+	}
+	return []*Term{t}
+}
+
+// segments flattens a concatenation into its segments.
+func (f *TermFactory) segments(t *Term) []*Term {
+	tag := seqTag(t.sort)
+	if u, ok := f.unfold[t.id]; ok {
+		t = u
+	}
+	switch t.op {
+	case "empty$" + tag:
+		return nil
+	case "cat$" + tag:
+		return append(f.segments(t.args[0]), f.segments(t.args[1])...)
+	}
+	return []*Term{t}
+}
+
+// SEq is content equality of sequences. Concatenations are compared segment by segment when their
+// segments line up (identical terms, or single elements); the rest is left to the extensionality axiom.
 func (f *TermFactory) SEq(a, b *Term) *Term {
 	if a == b {
 		return f.True()
 	}
 	if a.sort != b.sort {
 		panic(fmt.Sprintf("SEq sort mismatch %s %s", a.sort, b.sort))
+	}
+	if a.op == "ite" {
+		return f.Ite(a.args[0], f.SEq(a.args[1], b), f.SEq(a.args[2], b))
+	}
+	if b.op == "ite" {
+		return f.Ite(b.args[0], f.SEq(a, b.args[1]), f.SEq(a, b.args[2]))
+	}
+	tag := seqTag(a.sort)
+	sa, sb := f.segments(a), f.segments(b)
+	if len(sa) > 1 || len(sb) > 1 || f.unfold[a.id] != nil || f.unfold[b.id] != nil {
+		var conj []*Term
+		i, j := 0, 0
+		for i < len(sa) && j < len(sb) {
+			x, y := sa[i], sb[j]
+			if x == y {
+				i++
+				j++
+				continue
+			}
+			if x.op == "one$"+tag && y.op == "one$"+tag {
+				conj = append(conj, f.Eq(x.args[0], y.args[0]))
+				i++
+				j++
+				continue
+			}
+			// same literal length: compare the two segments
+			lx, ly := f.SLen(x), f.SLen(y)
+			if lx.ival != nil && ly.ival != nil && lx.ival.Cmp(ly.ival) == 0 {
+				conj = append(conj, f.rawEq(x, y))
+				i++
+				j++
+				continue
+			}
+			break
+		}
+		if i > 0 || j > 0 {
+			ra, rb := f.fromSegs(a.sort, sa[i:]), f.fromSegs(a.sort, sb[j:])
+			if ra != rb {
+				conj = append(conj, f.rawEq(ra, rb))
+			}
+			return f.And(conj...)
+		}
+	}
+	return f.rawEq(a, b)
+}
+
+func (f *TermFactory) fromSegs(sort Sort, xs []*Term) *Term {
+	r := f.SEmpty(sort)
+	for i := len(xs) - 1; i >= 0; i-- {
+		r = f.SCat(xs[i], r)
+	}
+	return r
+}
+
+func (f *TermFactory) rawEq(a, b *Term) *Term {
+	if a == b {
+		return f.True()
 	}
 	if a.id > b.id {
 		a, b = b, a
